@@ -324,7 +324,7 @@ pub fn sets(ctx: &Ctx) -> Vec<CaseSet> {
     let tb1 = tb.clone();
     out.push(CaseSet::new(
         "layouts",
-        ctx.size(48_000, 3_000_000),
+        ctx.size(240_000, 3_000_000),
         Box::new(move |rep, rng, _| {
             let elisp = rng.bool();
             let mut cfg = GenCfg::default_dialect();
@@ -371,12 +371,35 @@ pub fn sets(ctx: &Ctx) -> Vec<CaseSet> {
     let cfg = Arc::new(cfg);
     out.push(CaseSet::new(
         "soup-that-parses",
-        ctx.size(100_000, 6_000_000),
+        ctx.size(500_000, 6_000_000),
         Box::new(move |rep, rng, _| {
             let (input, q, tag) = crate::props::c06::gen_input(rng, &tb2, &cfg, 400);
             let q = if rng.chance(1, 2) { Q::from_index(rng.below(N_Q)) } else { q };
             if check_spans(rep, &input, &q, tag) {
                 rep.count(&format!("inputs:{}", tag));
+            }
+        }),
+    ));
+    // positions far from the origin: line numbers and byte columns beyond 8 and 16 bits
+    out.push(CaseSet::new(
+        "far-lines-and-columns",
+        35,
+        Box::new(move |rep, _rng, case| {
+            let ks = [255usize, 256, 257, 65_535, 65_536, 65_537, 70_000];
+            let k = ks[(case as usize) % ks.len()];
+            let prefix: String = match (case as usize) / ks.len() {
+                0 => "\n".repeat(k),
+                1 => " ".repeat(k),
+                2 => format!(";{}\n", "c".repeat(k)),
+                3 => format!("\"{}\" ", "s".repeat(k)),
+                _ => format!("\"{}\"\n\n", "é".repeat(k / 2)),
+            };
+            let input = format!("{}(a \"x\" #(b c) . d)\n  'e [f]", prefix);
+            rep.max("max_prefix_before_datum", k as u64);
+            for q in [Q::default_(), Q::elisp()] {
+                if check_spans(rep, input.as_bytes(), &q, "far-position") {
+                    rep.count("inputs:far-position");
+                }
             }
         }),
     ));
